@@ -1,1 +1,112 @@
-From Util Require Import Common.Base Common.ListLemmas RefCount.Model RefCount.Proofs.
+(* C10 - refcount: a value returned by Wait, Resolve or ResolveWithReleased is not released before the caller releases
+   the returned reference, unless it was invalidated, in which case the released callback (if given) fires exactly once.
+   Statements only, about the gate-level model RefCount.Model (REPAIRED code), for ALL event lists.
+   PARTIAL: the Access clauses of C10 (callback context cancelled on change, restart with the new value) are not in the
+   model yet (the cb_access callback exists, the Access caller's steps do not); nothing is claimed about Access.
+   NOT PROVED (stated for completeness): that the value a consumer returned is one of the delivered values, i.e.
+     forall c x v, nth_error (conss s) c = Some x -> cpcv x = CRet v 0 true -> exists g, v = S g /\ gdone (getg s g) = true;
+   with it, the second disjunct of c10_returned_value_not_released_while_held (a superseded goroutine releasing its own
+   result g+1, which by c08_pending_value_not_in_circulation was never delivered to any reference) could be excluded
+   for the consumer's value syntactically.  The monitors check this clause on every implementation trace (clause 10.1). *)
+From Util Require Import Common.Base Common.ListLemmas RefCount.Model RefCount.Proofs RefCount.ProofsC08 RefCount.ProofsC08b RefCount.ProofsC10.
+
+(* while some reference (in particular the one returned to the caller) is in the set before and after a step, that step
+   calls a release function only if it invalidates the stored value (SetContext with a different context, released() of
+   the current generation, synchronous or asynchronous) or if it is the store section of a superseded goroutine
+   releasing its own, never delivered result *)
+Theorem c10_returned_value_not_released_while_held : forall ku es e r c, Forall wf_ev es ->
+  let s := run repaired (init ku) es in
+  rin (nth r (refs (step repaired s e)) ref0) = true -> rellog (step repaired s e) = rellog s ++ [c] ->
+  (vrel s = Some (rc_id c) /\ rc_val c = value s /\
+   ((exists ctx, e = ESetCtx ctx /\ kctx s <> ctx) \/
+    (exists g x, e = EReleased g /\ nth_error (gs s) g = Some x /\ gnonce x = nonce s) \/
+    (exists a x, e = EAsync a /\ nth_error (asyncs s) a = Some x /\ as_pc x = AParked /\ as_nonce x = nonce s))) \/
+  (exists g x v er, e = EStore g /\ rc_id c = g /\ rc_val c = v /\ nth_error (gs s) g = Some x /\
+                    gpcv x = GStore v true er /\ gnonce x <> nonce s).
+Proof. intros ku es e r c Hwf. exact (held_reference_blocks_release _ e r c (run_inv ku es Hwf)). Qed.
+Print Assumptions c10_returned_value_not_released_while_held.
+
+(* the released callback fires at most once *)
+Theorem c10_released_fires_at_most_once : forall ku es c x,
+  nth_error (conss (run repaired (init ku) es)) c = Some x -> ww_fired x <= 1.
+Proof. exact released_fires_at_most_once. Qed.
+Print Assumptions c10_released_fires_at_most_once.
+
+(* an invalidation ("gone", or a result under another nonce) notified to the callback of a WaitWithReleased consumer
+   that has returned its value ([ww_res]) and not yet fired: callReleasedOnce fires - at once if the reference had been
+   released already, otherwise the spawned goroutine takes the reference's release flag and parks before removeRef *)
+Theorem c10_released_fires_after_invalidation : forall s r n rx c x,
+  nth_error (refs s) r = Some rx -> rkind rx = KWwr c -> nth_error (conss s) c = Some x ->
+  ww_res x = true -> ww_once x = false ->
+  (n = NGone \/ exists v e, n = NRes v e /\ nonce s <> ww_nonce x) ->
+  exists y, nth_error (conss (invoke s r n)) c = Some y /\ ww_once y = true /\
+    ((rflag rx = true /\ ww_fired y = S (ww_fired x) /\ ww_firepc y = Some RDone) \/
+     (rflag rx = false /\ ww_fired y = ww_fired x /\ ww_firepc y = Some RGate /\ rflag (nth r (refs (invoke s r n)) ref0) = true)).
+Proof. exact wwr_invalidation_fires. Qed.
+Print Assumptions c10_released_fires_after_invalidation.
+
+(* ... and the section of that goroutine fires it: exactly once in total; nothing the container does afterwards moves
+   the count *)
+Theorem c10_fire_goroutine_fires_exactly_once : forall ku es c x,
+  let s := run repaired (init ku) es in
+  nth_error (conss s) c = Some x -> ww_firepc x = Some RGate ->
+  ww_fired x = 0 /\
+  exists y, nth_error (conss (fire_section s c)) c = Some y /\ ww_once y = true /\ ww_fired y = 1 /\ ww_firepc y = Some RDone.
+Proof.
+  intros ku es c x s Hx Hf. pose proof (run_InvC ku es c x Hx) as Hok. split.
+  - unfold cons_ok in Hok. rewrite Hf in Hok. apply Hok.
+  - exact (fire_section_fires s c x Hx Hok Hf).
+Qed.
+Print Assumptions c10_fire_goroutine_fires_exactly_once.
+
+Theorem c10_fired_count_stable : forall k0 c s e,
+  match e with ERelSect _ | EStartCons _ | EConsStep _ | EConsCancel _ | EFire _ => False | _ => True end ->
+  fired_done c k0 (conss s) -> fired_done c k0 (conss (step repaired s e)).
+Proof. exact fired_stays. Qed.
+Print Assumptions c10_fired_count_stable.
+
+(* what Wait / ResolveWithReleased return ([cres] = the promise fed by the reference callback): a value comes with the
+   held reference; the resolver's error e, or Canceled (1) when the caller's context is cancelled first, is passed
+   through as such with the zero value, the reference being released (CRel: inside its own Release; CRet _ _ false:
+   released) *)
+Theorem c10_error_and_cancel_passthrough : forall s c x,
+  nth_error (conss s) c = Some x -> cpcv x = CBlocked -> ck x <> CKAccess ->
+  let p := cpcv (getc (cons_step s c) c) in
+  match cres x with
+  | Some (v, 0) => p = CRet v 0 true
+  | Some (v, S e) => p = CRel (S e) \/ p = CRet 0 (S e) false
+  | None => if ccanc x then p = CRel 1 \/ p = CRet 0 1 false else p = CBlocked
+  end.
+Proof. exact cons_step_result. Qed.
+Print Assumptions c10_error_and_cancel_passthrough.
+
+(* ---- non-vacuity ---- *)
+(* ResolveWithReleased returns value 1 and holds its reference; released() invalidates it: the callback's goroutine is
+   spawned and parks; its section fires the released callback once *)
+Definition ex_wwr : list ev :=
+  [ESetCtx 1; EStartCons 1; EProceed 0 true; EResReturn 0 1 true 0; EStore 0; EConsStep 0; EReleased 0].
+Example c10_example_invalidated_fires_once :
+  Forall wf_ev ex_wwr /\
+  let s := run repaired (init false) ex_wwr in
+  cpcv (getc s 0) = CRet 1 0 true /\ ww_firepc (getc s 0) = Some RGate /\ ww_fired (getc s 0) = 0 /\
+  map rc_id (rellog s) = [0] /\
+  ww_fired (getc (step repaired s (EFire 0)) 0) = 1 /\ ww_firepc (getc (step repaired s (EFire 0)) 0) = Some RDone.
+Proof. split; [repeat constructor; discriminate | vm_compute; repeat split; reflexivity]. Qed.
+
+(* Wait holds its reference: another reference's Release does not release the value; the caller's own Release does *)
+Example c10_example_held_blocks_release :
+  let es := [ESetCtx 1; EAddRef 1; EStartCons 0; EProceed 0 true; EResReturn 0 1 true 0; EStore 0; EConsStep 0; ERelease 0; ERelSect 0] in
+  let s := run repaired (init false) es in
+  cpcv (getc s 0) = CRet 1 0 true /\ rellog s = [] /\ nrefs s = 1 /\
+  map rc_id (rellog (run repaired s [ERelease 1; ERelSect 1])) = [0].
+Proof. vm_compute. repeat split; reflexivity. Qed.
+
+(* error and cancellation are passed through *)
+Example c10_example_error_passthrough :
+  let s := run repaired (init false) [ESetCtx 1; EStartCons 0; EProceed 0 true; EResReturn 0 1 false 7; EStore 0; EConsStep 0; ERelSect 0] in
+  cpcv (getc s 0) = CRet 0 7 false /\ nrefs s = 0.
+Proof. vm_compute. repeat split; reflexivity. Qed.
+Example c10_example_cancel_passthrough :
+  let s := run repaired (init false) [ESetCtx 1; EStartCons 1; EConsCancel 0; EConsStep 0; ERelSect 0] in
+  cpcv (getc s 0) = CRet 0 1 false.
+Proof. vm_compute. reflexivity. Qed.
